@@ -4987,8 +4987,12 @@ class Path:
                         to = [idx for idx in seg.to if idx <= seg.id]
                         # add the waiting destinations
                         to += seg.await_to
-                        # replace destinations
+                        # replace destinations (in a copy that belongs to this
+                        # path only: the Segment objects are shared with the
+                        # part and with all other paths)
+                        seg = copy(seg)
                         seg.to = to
+                        new_path.segments[segid] = seg
                     # delete used destinations
                     new_path.used_segment_jumps[segid] = list()
                 # add the jump destination to the used ones
